@@ -64,6 +64,12 @@ fn spec(id: &str) -> Option<Spec> {
             rule: "recorded histories of 2-4 real threads (call/return ticks from one atomic clock, per-thread logs merged after join) checked offline: W1 register with unique values (set returns its predecessor => total order reconstructed exactly; real-time order, no stale/early reads, conditional setters store exactly when different, contended ids), W2 append-only list (no lost closure, per-thread and real-time order, every read a prefix within completed/invoked bounds, subscribers monotone and handed the final value), W3 read/write guards exclude complete operations; plus the lock-exclusion invariant evaluated by the director in every forced schedule. Non-trivial = a round that recorded events / a distinct schedule; distinct = hash of (workload, round seed, event count) / schedule trace.",
             assumptions: BASE_ASSUME,
         },
+        "C20" => Spec {
+            run: runners_misc::run_c20,
+            level: "exploration",
+            rule: "bulk random histories of the vector engine (streams dropped mid-batch, while lagging, after the vector), the adapter engine (chains of 1-3 stages, both flavours) and the observable engine (both lock flavours, into_shared with and without subscribers); every element is a Tracked value whose construction, clones and drops are recorded in a table keyed by instance id: no double drop, no use after drop, table empty once everything of the history is gone. Non-trivial = the history published at least one message / diff / update; distinct = hash of the history. The same workload runs under Miri (leak check, tree borrows) and under ASan/LSan, see sanitizer_passes.",
+            assumptions: BASE_ASSUME,
+        },
         "C05" => Spec {
             run: runners_vec::run_c05,
             level: "exploration",
@@ -155,6 +161,8 @@ fn main() {
     let mut replay: Option<String> = None;
     let mut known_path = "/verif/known-findings.txt".to_string();
     let mut part = "all".to_string();
+    let mut san_cases: Option<u64> = None;
+    let mut max_schedules: Option<usize> = None;
     let mut replay_dir = "/verif/replays".to_string();
     let mut i = 2;
     while i < args.len() {
@@ -169,6 +177,9 @@ fn main() {
             "--replay" => replay = Some(v),
             "--known" => known_path = v,
             "--part" => part = v,
+            "--san-cases" => san_cases = v.parse().ok(),
+            "--max-schedules" => max_schedules = v.parse().ok(),
+            "--t-block-ms" => eyeball_verif::engine_thr::T_BLOCK_MS.store(v.parse().unwrap_or(12), std::sync::atomic::Ordering::SeqCst),
             "--replay-dir" => replay_dir = v,
             _ => {
                 eprintln!("unknown argument {a}");
@@ -176,6 +187,10 @@ fn main() {
             }
         }
         i += 2;
+    }
+    if id == "WARMUP" {
+        println!("warm");
+        std::process::exit(0);
     }
     let Some(spec) = spec(&id) else {
         println!("INCONCLUSIVE: unknown property {id}");
@@ -189,7 +204,12 @@ fn main() {
         scale,
         known: Known::load(&known_path),
         part,
+        san_cases,
+        max_schedules,
     };
+    if san_cases.is_some() {
+        eyeball_verif::engine_thr::SMALL.store(true, std::sync::atomic::Ordering::SeqCst);
+    }
     if let Some(path) = &replay {
         let txt = std::fs::read_to_string(path).expect("cannot read replay file");
         let v: Value = serde_json::from_str(&txt).expect("replay file is not JSON");
